@@ -42,6 +42,7 @@ pub struct Obs {
     pub bal_t: u128,
     pub supply_t: u128,
     pub errors: Vec<String>,
+    pub state_ok: bool,
 }
 
 pub fn batch_of(v: &Value) -> BatchObs {
@@ -93,6 +94,7 @@ impl Obs {
             }
         };
         let st = get(json!({"state":{}}));
+        let state_ok = !st.is_null();
         let cfg = get(json!({"config":{}}));
         let bs = get(json!({"batches":{}}));
         let pb = get(json!({"pending_batch":{}}));
@@ -116,6 +118,7 @@ impl Obs {
             bal_t: sc.w.bal(&sc.q, &sc.t),
             supply_t: sc.w.supply_of(&sc.t),
             errors,
+            state_ok,
         }
     }
 
